@@ -1,5 +1,9 @@
 (* BuiltinsProofs.v — lemmas about the model of the built-ins (Builtins.v). *)
 From Coq Require Import ZArith NArith List Bool Lia ZifyBool ZifyNat ZifyN Floats Arith.
+From Coq Require Strings.String.
+Import Coq.Strings.String.StringSyntax.
+Local Open Scope string_scope.
+Local Open Scope list_scope.
 From EvyV Require Import Base BuiltinTy Builtins.
 Import ListNotations.
 
@@ -409,3 +413,384 @@ Proof.
       apply trim_left_suffix_last in E. rewrite E in Hlast. exact Hlast.
 Qed.
 
+
+(* ====================================================================== *)
+(** * len *)
+Lemma len_str_app a b : len_str (a ++ b) = (len_str a + len_str b)%nat.
+Proof. apply app_length. Qed.
+
+Lemma len_split_chars s : List.length (split s []) = len_str s.
+Proof. unfold split, explode. apply map_length. Qed.
+
+(* ====================================================================== *)
+(** * the err / errmsg protocol over histories *)
+
+(* what a call does to the err state: the two conversions, or anything else *)
+Inductive hcall := HStr2Num (s : str) | HStr2Bool (s : str) | HOther.
+
+Section Err.
+Variable o : oracles.
+
+Definition hstep (st : errst) (c : hcall) : errst :=
+  match c with
+  | HStr2Num s => snd (str2num o s st)
+  | HStr2Bool s => snd (str2bool o s st)
+  | HOther => st
+  end.
+Definition hrun (st : errst) (h : list hcall) : errst := fold_left hstep h st.
+
+(* the documentation: a conversion succeeds or fails … *)
+Definition conv_succeeds (c : hcall) : bool :=
+  match c with
+  | HStr2Num s => match o_parse_float o s with PFOk _ => true | _ => false end
+  | HStr2Bool s => mem_str s true_literals || mem_str s false_literals
+  | HOther => true
+  end.
+(* … and err/errmsg afterwards say which: (false, "") or (true, message naming
+   the function and quoting the input) *)
+Definition documented_state (c : hcall) : errst :=
+  if conv_succeeds c then {| e_err := false; e_msg := [] |}
+  else match c with
+       | HStr2Num s => {| e_err := true; e_msg := s_ "str2num: cannot parse " ++ quote o s |}
+       | HStr2Bool s => {| e_err := true; e_msg := s_ "str2bool: cannot parse " ++ quote o s |}
+       | HOther => {| e_err := false; e_msg := [] |}
+       end.
+
+Definition pick_conv (acc : option hcall) (c : hcall) : option hcall :=
+  match c with HOther => acc | _ => Some c end.
+(* the last conversion call of a history *)
+Definition last_conv (h : list hcall) : option hcall := fold_left pick_conv h None.
+
+Lemma hstep_conv st c : c <> HOther -> hstep st c = documented_state c.
+Proof.
+  destruct c as [s|s|]; intros H; [| |congruence]; unfold hstep, documented_state, conv_succeeds.
+  - unfold str2num. destruct (o_parse_float o s); reflexivity.
+  - unfold str2bool, parse_bool. destruct (mem_str s true_literals); [reflexivity|].
+    destruct (mem_str s false_literals); reflexivity.
+Qed.
+
+Lemma hrun_gen h : forall st acc,
+  (forall c, acc = Some c -> st = documented_state c) ->
+  hrun st h = match fold_left pick_conv h acc with Some c => documented_state c | None => st end
+  /\ (fold_left pick_conv h acc = None -> acc = None).
+Proof.
+  induction h as [|c h IH]; intros st acc Hacc; simpl.
+  - split; [|tauto]. destruct acc; [apply Hacc; reflexivity | reflexivity].
+  - destruct c as [s|s|].
+    + destruct (IH (hstep st (HStr2Num s)) (Some (HStr2Num s))) as [E N].
+      { intros c [= <-]. apply hstep_conv. discriminate. }
+      split; [|intros F; apply N in F; discriminate].
+      change (pick_conv acc (HStr2Num s)) with (Some (HStr2Num s)). rewrite E.
+      destruct (fold_left pick_conv h (Some (HStr2Num s))) eqn:F; [reflexivity|].
+      discriminate (N eq_refl).
+    + destruct (IH (hstep st (HStr2Bool s)) (Some (HStr2Bool s))) as [E N].
+      { intros c [= <-]. apply hstep_conv. discriminate. }
+      split; [|intros F; apply N in F; discriminate].
+      change (pick_conv acc (HStr2Bool s)) with (Some (HStr2Bool s)). rewrite E.
+      destruct (fold_left pick_conv h (Some (HStr2Bool s))) eqn:F; [reflexivity|].
+      discriminate (N eq_refl).
+    + apply (IH st acc Hacc).
+Qed.
+
+(* after ANY history of calls, err and errmsg describe the last conversion
+   call (set on failure, reset on success); without one they are untouched *)
+Lemma err_protocol h st :
+  hrun st h = match last_conv h with Some c => documented_state c | None => st end.
+Proof. apply (hrun_gen h st None). discriminate. Qed.
+
+Lemma err_after_append h st c : c <> HOther -> hrun st (h ++ [c]) = documented_state c.
+Proof. intros H. unfold hrun. rewrite fold_left_app. simpl. apply hstep_conv, H. Qed.
+
+End Err.
+
+(* ---------- str2bool's literals ---------- *)
+Lemma literals_disjoint : forallb (fun x => negb (mem_str x true_literals)) false_literals = true.
+Proof. vm_compute. reflexivity. Qed.
+
+Lemma parse_bool_true s : parse_bool s = Some true <-> In s true_literals.
+Proof.
+  unfold parse_bool. rewrite <- mem_str_In. destruct (mem_str s true_literals); [tauto|].
+  destruct (mem_str s false_literals); split; discriminate.
+Qed.
+
+Lemma parse_bool_false s : parse_bool s = Some false <-> In s false_literals.
+Proof.
+  unfold parse_bool. rewrite <- (mem_str_In s false_literals).
+  destruct (mem_str s true_literals) eqn:T.
+  - split; [discriminate|]. intros F. pose proof literals_disjoint as D.
+    rewrite forallb_forall in D. apply mem_str_In in F. apply D in F. rewrite T in F. discriminate.
+  - destruct (mem_str s false_literals); split; try discriminate; reflexivity.
+Qed.
+
+Lemma parse_bool_none s : parse_bool s = None <-> ~ In s (true_literals ++ false_literals).
+Proof.
+  rewrite in_app_iff, <- !mem_str_In. unfold parse_bool.
+  destruct (mem_str s true_literals); [split; [discriminate | intros H; exfalso; apply H; left; reflexivity]|].
+  destruct (mem_str s false_literals); [split; [discriminate | intros H; exfalso; apply H; right; reflexivity]|].
+  split; [intros _ [H|H]; discriminate | reflexivity].
+Qed.
+
+(* ---------- repr: map keys ---------- *)
+Section Keys.
+Variable o : oracles.
+
+(* an identifier: a letter or underscore, then letters, digits, underscores *)
+Definition IdentSpec (k : str) : Prop :=
+  exists c t, k = c :: t /\ is_letter_ o c = true /\ Forall (fun x => is_letter_ o x = true \/ is_digit_ x = true) t.
+
+Lemma is_ident_fixed_spec k : is_ident_fixed o k = true <-> IdentSpec k.
+Proof.
+  unfold is_ident_fixed, IdentSpec. destruct k as [|c t].
+  - split; [discriminate | intros (c & t & H & _); discriminate].
+  - rewrite andb_true_iff, forallb_forall. split.
+    + intros [Hc Ht]. exists c, t. split; [reflexivity|]. split; [exact Hc|].
+      apply Forall_forall. intros x Hx. apply Ht in Hx. apply orb_true_iff in Hx. exact Hx.
+    + intros (c' & t' & [= <- <-] & Hc & Ht). split; [exact Hc|]. intros x Hx.
+      rewrite Forall_forall in Ht. apply orb_true_iff. apply Ht, Hx.
+Qed.
+
+Lemma is_ident_loop_false_spec t :
+  is_ident_loop o false t = forallb (fun c => is_letter_ o c || is_digit_ c) t.
+Proof.
+  induction t as [|c t IH]; [reflexivity|]. simpl. rewrite <- IH.
+  destruct (is_letter_ o c), (is_digit_ c); reflexivity.
+Qed.
+
+(* the code's IsIdent: the FIRST character is never examined *)
+Lemma is_ident_code_spec k :
+  is_ident o k = match k with [] => false | _ :: t => forallb (fun c => is_letter_ o c || is_digit_ c) t end.
+Proof.
+  destruct k as [|c t]; [reflexivity|]. unfold is_ident. simpl.
+  rewrite andb_false_r. apply is_ident_loop_false_spec.
+Qed.
+
+(* it agrees with the corrected one exactly on strings whose first character is fine *)
+Lemma is_ident_agrees k c t : k = c :: t -> is_letter_ o c = true -> is_ident o k = is_ident_fixed o k.
+Proof.
+  intros -> Hc. rewrite is_ident_code_spec. unfold is_ident_fixed. rewrite Hc. reflexivity.
+Qed.
+
+Lemma esc_char_nonempty a c : (1 <= List.length (esc_char o a c))%nat.
+Proof.
+  unfold esc_char.
+  repeat match goal with |- context [if ?b then _ else _] => destruct b end;
+    cbn; rewrite ?app_length; cbn; lia.
+Qed.
+
+Lemma flat_map_esc_length a s : (List.length s <= List.length (flat_map (esc_char o a) s))%nat.
+Proof.
+  induction s as [|c s IH]; simpl; [lia|]. rewrite app_length. pose proof (esc_char_nonempty a c). lia.
+Qed.
+
+Lemma quote_longer s : (List.length s + 2 <= List.length (quote o s))%nat.
+Proof.
+  unfold quote, quote_with. simpl. rewrite app_length. simpl. pose proof (flat_map_esc_length false s). lia.
+Qed.
+
+Lemma quote_neq s : quote o s <> s.
+Proof. intros H. pose proof (quote_longer s) as L. rewrite H in L. lia. Qed.
+
+(* corrected rendering: a key is printed bare iff it is an identifier, quoted otherwise *)
+Lemma key_repr_fixed_spec k :
+  (key_repr_fixed o k = k <-> IdentSpec k) /\ (key_repr_fixed o k = quote o k <-> ~ IdentSpec k).
+Proof.
+  unfold key_repr_fixed. rewrite <- is_ident_fixed_spec. destruct (is_ident_fixed o k).
+  - split; [tauto|]. split; [intros H; symmetry in H; apply quote_neq in H; contradiction | intros H; exfalso; apply H; reflexivity].
+  - split; [split; [intros H; apply quote_neq in H; contradiction | discriminate] | split; [discriminate | reflexivity]].
+Qed.
+
+(* the code's rendering, for keys that start with a letter or underscore *)
+Lemma key_repr_guarded k c t : k = c :: t -> is_letter_ o c = true ->
+  (key_repr o k = k <-> IdentSpec k) /\ (key_repr o k = quote o k <-> ~ IdentSpec k).
+Proof.
+  intros Hk Hc. unfold key_repr. rewrite (is_ident_agrees k c t Hk Hc).
+  apply key_repr_fixed_spec.
+Qed.
+
+End Keys.
+
+(* ====================================================================== *)
+(** * test bookkeeping over histories of test outcomes *)
+
+Fixpoint run_tests (failfast : bool) (outs : list outcome) (t : testinfo) : testinfo * option outcome :=
+  match outs with
+  | [] => (t, None)
+  | r0 :: rest =>
+      let '(r, t') := account_test failfast true r0 t in
+      if stops r then (t', Some r) else run_tests failfast rest t'
+  end.
+
+(* specification, independent of the counters: which calls are executed … *)
+Definition ends_run (failfast : bool) (r : outcome) : bool :=
+  match r with ORet _ => false | OTestFail _ => failfast | _ => true end.
+Fixpoint executed (failfast : bool) (outs : list outcome) : list outcome :=
+  match outs with
+  | [] => []
+  | r :: rest => if ends_run failfast r then [r] else r :: executed failfast rest
+  end.
+Definition is_fail (r : outcome) : bool := match r with OTestFail _ => true | _ => false end.
+Definition fail_msgs (l : list outcome) : list str :=
+  flat_map (fun r => match r with OTestFail m => [m] | _ => [] end) l.
+
+Lemma fail_msgs_length l : List.length (fail_msgs l) = List.length (filter is_fail l).
+Proof. induction l as [|r l IH]; [reflexivity|]. destruct r; simpl; auto. Qed.
+
+Lemma run_tests_gen ff outs : forall t,
+  let '(t', stop) := run_tests ff outs t in
+  t_total t' = (t_total t + List.length (executed ff outs))%nat /\
+  t_errors t' = t_errors t ++ fail_msgs (executed ff outs) /\
+  (stop = None <-> forallb (fun r => negb (ends_run ff r)) outs = true) /\
+  (forall r, stop = Some r -> ends_run ff r = true /\ In r outs).
+Proof.
+  induction outs as [|r0 rest IH]; intros t; simpl.
+  - rewrite Nat.add_0_r, app_nil_r. repeat split; discriminate.
+  - destruct r0 as [v|k|f|msg| | |]; unfold account_test; simpl;
+      try (rewrite app_nil_r; split; [lia|]; split; [reflexivity|]; split; [split; discriminate|];
+           intros r' [= <-]; split; [reflexivity | left; reflexivity]).
+    + (* ORet *)
+      specialize (IH {| t_total := S (t_total t); t_errors := t_errors t |}).
+      destruct (run_tests ff rest _) as [t' stop]. simpl in IH. destruct IH as (A & B & C & D).
+      split; [lia|]. split; [assumption|]. split; [exact C|].
+      intros r Hr. destruct (D r Hr). split; [assumption | right; assumption].
+    + (* OTestFail *)
+      destruct ff; simpl.
+      * split; [lia|]. split; [reflexivity|]. split; [split; discriminate|].
+        intros r [= <-]. split; [reflexivity | left; reflexivity].
+      * specialize (IH {| t_total := S (t_total t); t_errors := t_errors t ++ [msg] |}).
+        destruct (run_tests false rest _) as [t' stop]. simpl in IH. destruct IH as (A & B & C & D).
+        split; [lia|]. split; [rewrite B, <- app_assoc; reflexivity|]. split; [exact C|].
+        intros r Hr. destruct (D r Hr). split; [assumption | right; assumption].
+Qed.
+
+Lemma filter_len_le {A} (f : A -> bool) l : (List.length (filter f l) <= List.length l)%nat.
+Proof. induction l as [|x l IH]; simpl; [lia|]. destruct (f x); simpl; lia. Qed.
+
+(* over every history of test outcomes and both fail-fast settings *)
+Lemma test_bookkeeping ff outs :
+  let '(t, stop) := run_tests ff outs ti_init in
+  let ex := executed ff outs in
+  t_total t = List.length ex /\
+  fail_count t = List.length (filter is_fail ex) /\
+  (success_count t + fail_count t = t_total t)%nat /\
+  t_errors t = fail_msgs ex /\
+  (stop = None <-> forallb (fun r => negb (ends_run ff r)) outs = true) /\
+  (classify stop t = RcOk <-> stop = None /\ fail_count t = 0%nat).
+Proof.
+  pose proof (run_tests_gen ff outs ti_init) as H. destruct (run_tests ff outs ti_init) as [t stop].
+  simpl in H. destruct H as (A & B & C & D).
+  assert (fail_count t = List.length (filter is_fail (executed ff outs))) as F.
+  { unfold fail_count. rewrite B. apply fail_msgs_length. }
+  assert (List.length (filter is_fail (executed ff outs)) <= List.length (executed ff outs))%nat as L by apply filter_len_le.
+  assert (CL : classify stop t = RcOk <-> stop = None /\ fail_count t = 0%nat).
+  { split.
+    - intros Hc. unfold classify in Hc. destruct stop as [r|].
+      + destruct (D r eq_refl) as [E _]. destruct r; simpl in *; try discriminate.
+      + destruct (Nat.ltb 0 (fail_count t)) eqn:G; [discriminate|]. apply Nat.ltb_ge in G. split; [reflexivity | lia].
+    - intros [-> Z0]. unfold classify. rewrite Z0. reflexivity. }
+  split; [exact A|]. split; [exact F|]. split; [unfold success_count; lia|].
+  split; [exact B|]. split; [exact C | exact CL].
+Qed.
+
+(* the summary: nothing for zero tests or with --no-test-summary; otherwise the
+   counts of failed and passed tests with "test"/"tests" *)
+Lemma report_spec ns t :
+  report ns t =
+  if ns || Nat.eqb (t_total t) 0 then None
+  else if Nat.eqb (fail_count t) 0
+       then Some (green_mark ++ nat_str (success_count t) ++ s_ " passed test" ++ plural_suffix (success_count t) ++ [10%N])
+       else Some (cross_mark ++ nat_str (fail_count t) ++ s_ " failed test" ++ plural_suffix (fail_count t) ++ [10%N]
+                  ++ check_mark ++ nat_str (success_count t) ++ s_ " passed test" ++ plural_suffix (success_count t) ++ [10%N]).
+Proof.
+  unfold report. destruct (ns || Nat.eqb (t_total t) 0); [reflexivity|].
+  destruct (fail_count t); reflexivity.
+Qed.
+
+Lemma plural_suffix_spec n : plural_suffix n = [] <-> n = 1%nat.
+Proof.
+  unfold plural_suffix. destruct (Nat.eqb n 1) eqn:E.
+  - apply Nat.eqb_eq in E. tauto.
+  - apply Nat.eqb_neq in E. split; [discriminate | tauto].
+Qed.
+
+(* ====================================================================== *)
+(** * exit status *)
+Lemma exit_status_range f : (0 <= exit_status f < 256)%Z.
+Proof. unfold exit_status. apply Z.mod_pos_bound. lia. Qed.
+
+Lemma float_to_Z_trunc f z : float_to_Z f = Some z -> float_trunc f = Some z.
+Proof.
+  unfold float_to_Z, float_trunc. destruct (Prim2SF f) as [s|s| |s m e]; try discriminate; [tauto|].
+  destruct (0 <=? e)%Z; [tauto|].
+  destruct ((Z.pos m mod 2 ^ (- e)) =? 0)%Z; [tauto | discriminate].
+Qed.
+
+(* for an integer n in the range of Go's int: the status is n mod 256 *)
+Lemma exit_status_int f z : float_to_Z f = Some z -> (- 2 ^ 63 <= z < 2 ^ 63)%Z -> exit_status f = (z mod 256)%Z.
+Proof.
+  intros H R. unfold exit_status, go_int64. rewrite (float_to_Z_trunc f z H).
+  replace ((- 2 ^ 63 <=? z) && (z <? 2 ^ 63))%Z with true; [reflexivity|].
+  symmetry. apply andb_true_iff. split; [apply Z.leb_le | apply Z.ltb_lt]; lia.
+Qed.
+
+Lemma exit_status_small f z : float_to_Z f = Some z -> (0 <= z < 256)%Z -> exit_status f = z.
+Proof.
+  intros H R. rewrite (exit_status_int f z H); [apply Z.mod_small; lia|].
+  assert (256 < 2 ^ 63)%Z by (vm_compute; reflexivity). lia.
+Qed.
+
+(* NaN and ±Inf (no integer part at all): Go's conversion gives -2^63, status 0 *)
+Lemma exit_status_nonfinite f : float_trunc f = None -> exit_status f = 0%Z.
+Proof. intros H. unfold exit_status, go_int64. rewrite H. vm_compute. reflexivity. Qed.
+
+(* ====================================================================== *)
+(** * rand *)
+Section Rand.
+Variable o : oracles.
+Hypothesis rand_contract : forall n, (0 < n)%Z -> (0 <= o_rand o n < n)%Z.
+
+(* whatever is returned is an integer in [0, int32(n)); otherwise the documented
+   panic — or the host crash that rand_nan_refuted exhibits *)
+Lemma rand_range upper :
+  match rand_model o upper with
+  | ORet v => exists z, v = VNum (float_of_Z z) /\ (0 <= z < go_int32 upper)%Z /\ (1 <= go_int32 upper < 2 ^ 31)%Z
+  | OPanic BadArguments => PrimFloat.ltb upper 1 = true \/ PrimFloat.ltb 2147483647 upper = true
+  | OHostCrash => PrimFloat.ltb upper 1 = false /\ PrimFloat.ltb 2147483647 upper = false /\ (go_int32 upper <= 0)%Z
+  | _ => False
+  end.
+Proof.
+  unfold rand_model. destruct (PrimFloat.ltb upper 1) eqn:A; simpl; [left; reflexivity|].
+  destruct (PrimFloat.ltb 2147483647 upper) eqn:B; simpl; [right; reflexivity|].
+  destruct (go_int32 upper <=? 0)%Z eqn:C.
+  - apply Z.leb_le in C. tauto.
+  - apply Z.leb_gt in C. exists (o_rand o (go_int32 upper)). split; [reflexivity|].
+    split; [apply rand_contract; lia|]. split; [lia|].
+    unfold go_int32 in *. destruct (float_trunc upper) as [z|]; [|lia].
+    destruct ((- 2 ^ 31 <=? z) && (z <? 2 ^ 31))%Z eqn:D; [|lia].
+    apply andb_true_iff in D as [_ D]. apply Z.ltb_lt in D. exact D.
+Qed.
+
+Lemma rand_fixed_range upper :
+  match rand_fixed o upper with
+  | ORet v => exists z, v = VNum (float_of_Z z) /\ (0 <= z < go_int32 upper)%Z
+  | OPanic BadArguments => PrimFloat.leb 1 upper && PrimFloat.leb upper 2147483647 = false
+  | OHostCrash => PrimFloat.leb 1 upper && PrimFloat.leb upper 2147483647 = true /\ (go_int32 upper <= 0)%Z
+  | _ => False
+  end.
+Proof.
+  unfold rand_fixed. destruct (PrimFloat.leb 1 upper && PrimFloat.leb upper 2147483647) eqn:A; simpl; [|reflexivity].
+  destruct (go_int32 upper <=? 0)%Z eqn:C.
+  - apply Z.leb_le in C. tauto.
+  - apply Z.leb_gt in C. exists (o_rand o (go_int32 upper)). split; [reflexivity|]. apply rand_contract. lia.
+Qed.
+End Rand.
+
+(* float constants for Props/C13.v (which does not import Floats, so that Print
+   Assumptions shows the primitive operations with their qualified names) *)
+Definition fc_nan : float := nan.
+Definition fc_inf : float := infinity.
+Definition fc_zero : float := zero.
+Definition fc_one : float := one.
+Definition fc_int31max : float := 2147483647%float.
+Definition fc_half : float := 0.5%float.
+Definition fc_lit (z : Z) : float := float_of_Z z.
+Definition fc_frac (num den : Z) : float := PrimFloat.div (float_of_Z num) (float_of_Z den).
